@@ -160,7 +160,8 @@ def check_object(run, stats, jobs):
     need = {"SetIndex", "ClearIndex", "AssignColumn", "DelColumn", "Array", "ToDict", "SumRows", "WriteLoad"}
     if need - set(acts) or depth < 3:
         raise RuntimeError(f"vacuous: object histories lack {sorted(need - set(acts))} or depth {depth} < 3")
-    work = [(r, v) for r in recs for v in VARIANTS]
+    # read order 1 (full read after every call) for histories of up to 3 calls, read order 0 for all
+    work = [(r, v) for r in recs for v in VARIANTS if v == 0 or len(r["hist"]) < 3]
     t0 = time.time()
     n = bad = 0
     sampled = False
